@@ -16,7 +16,7 @@ import (
 // job kinds plus a few of size 4.
 func jobSets() [][]int {
 	var out [][]int
-	kinds := []int{JAsm1, JAsm2, JSim, JLoad, JAsm3, JAsm4, JAsm1b, JAsm88, JAsmErr, JAsmLbl, JSim2, JAsmOrg}
+	kinds := []int{JAsm1, JAsm2, JSim, JLoad, JAsm3, JAsm4, JAsm1b, JAsm88, JAsmErr, JAsmLbl, JSim2, JAsmOrg, JSim5}
 	for _, a := range kinds {
 		out = append(out, []int{a})
 		for _, b := range kinds {
